@@ -685,11 +685,11 @@ func (po *PinOptions) Equals(po2 *PinOptions) bool {
 		return false
 	}
 
-	for k, v := range po.Metadata {
-		v2 := po2.Metadata[k]
-		if k != "" && v != v2 {
-			return false
-		}
+	// Compare both ways so that keys which exist only in po2 (or
+	// only in po) make the options different.
+	if !metadataContains(po.Metadata, po2.Metadata) ||
+		!metadataContains(po2.Metadata, po.Metadata) {
+		return false
 	}
 
 	// deliberately ignore Update
@@ -712,6 +712,21 @@ func (po *PinOptions) Equals(po2 *PinOptions) bool {
 		}
 	}
 
+	return true
+}
+
+// metadataContains returns true when every entry in m1 (other than those
+// with an empty key, which are ignored) exists in m2 with the same value.
+func metadataContains(m1, m2 map[string]string) bool {
+	for k, v := range m1 {
+		if k == "" {
+			continue
+		}
+		v2, ok := m2[k]
+		if !ok || v != v2 {
+			return false
+		}
+	}
 	return true
 }
 
